@@ -23,14 +23,15 @@ import (
 
 var rec = ev.For("C22", "exploration",
 	"random multi-series datasets (1-4 shard groups, 1-4 write batches with snapshots/compaction/reopen, overwrites, shared timestamps) "+
-		"and random queries of the InfluxQL subset rendered to text and parsed by the real parser; NON-TRIVIAL = data in >=2 shards, "+
+		"and random queries of the InfluxQL subset (about a quarter of them with 2-4 calls in one statement over fields with different coverage) rendered to text and parsed by the real parser; NON-TRIVIAL = data in >=2 shards, "+
 		"query with GROUP BY time and a fill mode other than none or with LIMIT/OFFSET, non-empty expected result; DISTINCT by (dataset, query text)")
 
 const (
-	keySLimit   = "slimit-per-shard-tagsets"
-	keyPrevDesc = "fill-previous-desc-uses-later-bucket"
-	keyOffset   = "offset-without-limit-truncates-shard"
-	keySOffset  = "soffset-without-slimit-empty"
+	keySLimit       = "slimit-per-shard-tagsets"
+	keyPrevDesc     = "fill-previous-desc-uses-later-bucket"
+	keyOffset       = "offset-without-limit-truncates-shard"
+	keySOffset      = "soffset-without-slimit-empty"
+	keyLimitPerCall = "limit-offset-per-call-in-multi-call-statement"
 )
 
 func toModelsPoint(ds *dataset, w write) (models.Point, error) {
@@ -169,6 +170,8 @@ func fmtExpected(r *refql.Result) string {
 					switch {
 					case c.Null:
 						cs = append(cs, "null")
+					case c.OrNull:
+						cs = append(cs, c.V.String()+"-or-null")
 					case c.Ranged:
 						cs = append(cs, fmt.Sprintf("%d..%d", c.Lo, c.Hi))
 					case c.Any:
@@ -299,7 +302,8 @@ func TestPropSelect(t *testing.T) {
 	rec.Assume("rows of one output series with equal timestamps (merged input series) may come in any order; LIMIT/OFFSET may cut such a run anywhere")
 	rec.Assume("selector ties (equal extreme values; equal timestamps for first/last) may be resolved to any tied point")
 	rec.Assume("floats produced by sum/mean/fill(linear) are compared with relative tolerance 1e-9; integer fill(linear) may round either way")
-	rec.Assume("not generated (classes dropped:*): selector with tag columns under fill(value|previous|linear); fill(value|linear) for string/boolean results; OFFSET together with SLIMIT/SOFFSET; conditions on a field that no shard in the queried range knows (the engine then treats the name like a missing tag, i.e. '', which the documentation does not cover); several calls in one statement; min/max of strings and booleans")
+	rec.Assume("not generated (classes dropped:*): selector with tag columns under fill(value|previous|linear); fill(value|linear) for string/boolean results; OFFSET together with SLIMIT/SOFFSET; conditions on a field that no shard in the queried range knows (the engine then treats the name like a missing tag, i.e. '', which the documentation does not cover); several calls of which one is on a field that no shard in the queried range knows; the same call twice in one statement; calls mixed with fields or tags when there are several calls; min/max of strings and booleans")
+	rec.Assume("several calls in one statement: every call is evaluated on its own over the points that have its field and the rows are joined on time; a selector then reports the interval start (lower bound of the range / epoch 0 without GROUP BY time) instead of the time of its point; under fill(none) an interval is reported when at least one call has data in it; where only another call has a row a call shows null (the number under fill(<number>); COUNT(): 0 or null, both accepted); LIMIT/OFFSET count joined rows; a function occurring twice is told apart by aliases")
 	rec.Assume("the reference evaluator verifharness/internal/refql, validated on the documentation's examples (refql_test.go)")
 	rec.Check(t, 350, 3000, func(t *rapid.T) {
 		ds := drawDataset(t)
@@ -333,6 +337,21 @@ func TestPropSelect(t *testing.T) {
 			rec.Eval()
 			for _, c := range classOf(q) {
 				rec.Class(c)
+			}
+			if len(q.Calls()) > 1 {
+				// how far the per-call row streams of the statement differ (they are joined on time by the
+				// engine's multi-scanner cursor, which has to pick the next row among unequal heads)
+				if res.AbsentCalls > 0 {
+					rec.Class("multi-call:series-without-points-for-one-call")
+				}
+				if res.Misaligned > 0 {
+					rec.Class("multi-call:misaligned-calls")
+					if q.Desc {
+						rec.Class("multi-call:misaligned-calls:order-desc")
+					} else {
+						rec.Class("multi-call:misaligned-calls:order-asc")
+					}
+				}
 			}
 			rows, qerr := runQuery(s, text)
 			if qerr != nil {
@@ -374,49 +393,71 @@ func TestPropSelect(t *testing.T) {
 				}
 				continue
 			}
-			// known findings: exclude exactly their signatures
-			if q.SLimit == 0 && q.SOffset > 0 && len(got) == 0 && ev.KnownOpen("C22", keySOffset) {
-				rec.ExcludedKnown(keySOffset)
-				continue
+			// a mismatch: a known finding (exactly its signature) or a violation
+			if key := explainMismatch(t, s, ds, d, q, res, rows, got, cerr); key != "" {
+				rec.ExcludedKnown(key)
 			}
-			if (q.SLimit > 0 || q.SOffset > 0) && ev.KnownOpen("C22", keySLimit) && slimitAtRisk(ds, d, q, res) {
-				// the rest of the query must still be right: the same query without SLIMIT/SOFFSET is checked
-				q2 := *q
-				q2.SLimit, q2.SOffset = 0, 0
-				if !(q2.Desc && q2.Fill == refql.FillPrevious && ev.KnownOpen("C22", keyPrevDesc)) {
-					res2, _ := refql.Eval(d, &q2)
-					rows2, err2 := runQuery(s, q2.String())
-					if err2 != nil {
-						failCase(t, "query-error", fmt.Sprintf("%s: %v", q2.String(), err2), report(ds, &q2, fmtExpected(res2), err2.Error()))
-					}
-					got2, err2 := toGot(rows2)
-					if err2 == nil {
-						err2 = res2.Check(got2)
-					}
-					if err2 != nil {
-						failCase(t, mismatchKey(&q2), fmt.Sprintf("%s: %v", q2.String(), err2), report(ds, &q2, fmtExpected(res2), fmtRows(rows2)))
-					}
-				}
-				rec.ExcludedKnown(keySLimit)
-				continue
-			}
-			if !q.IsCall() && q.Limit == 0 && q.RowOffset > 0 && ev.KnownOpen("C22", keyOffset) && offsetAtRisk(q, res) {
-				rec.ExcludedKnown(keyOffset)
-				continue
-			}
-			if q.Desc && q.Fill == refql.FillPrevious && ev.KnownOpen("C22", keyPrevDesc) {
-				// signature: the result equals the one obtained when "previous" follows the output order
-				q2 := *q
-				q2.PreviousFollowsOutputOrder = true
-				res2, _ := refql.Eval(d, &q2)
-				if res2 != nil && res2.Check(got) == nil {
-					rec.ExcludedKnown(keyPrevDesc)
-					continue
-				}
-			}
-			failCase(t, mismatchKey(q), fmt.Sprintf("%s: %v", text, cerr), report(ds, q, fmtExpected(res), fmtRows(rows)))
 		}
 	})
+}
+
+// verify runs q and compares the rows with the reference. It returns "" when they agree, the key
+// of the known finding whose signature explains the mismatch otherwise; every other mismatch
+// is reported as a violation.
+func verify(t *rapid.T, s *fix.Stack, ds *dataset, d *refql.Data, q *refql.Query) string {
+	res, err := refql.Eval(d, q)
+	if err != nil {
+		t.Fatalf("reference cannot evaluate %s: %v", q.String(), err)
+	}
+	rows, qerr := runQuery(s, q.String())
+	if qerr != nil {
+		failCase(t, "query-error", fmt.Sprintf("%s: %v", q.String(), qerr), report(ds, q, fmtExpected(res), qerr.Error()))
+	}
+	got, cerr := toGot(rows)
+	if cerr == nil {
+		cerr = res.Check(got)
+	}
+	if cerr == nil {
+		return ""
+	}
+	return explainMismatch(t, s, ds, d, q, res, rows, got, cerr)
+}
+
+// explainMismatch decides about a result that differs from the reference (cerr): the signatures
+// of the open known findings are excluded, exactly; the rest of such a statement (the same
+// statement without the clause the finding is about) must still be right.
+func explainMismatch(t *rapid.T, s *fix.Stack, ds *dataset, d *refql.Data, q *refql.Query, res *refql.Result, rows []*models.Row, got []refql.GotSeries, cerr error) string {
+	if q.SLimit == 0 && q.SOffset > 0 && len(got) == 0 && ev.KnownOpen("C22", keySOffset) {
+		return keySOffset
+	}
+	if (q.SLimit > 0 || q.SOffset > 0) && ev.KnownOpen("C22", keySLimit) && slimitAtRisk(ds, d, q, res) {
+		q2 := *q
+		q2.SLimit, q2.SOffset = 0, 0
+		verify(t, s, ds, d, &q2)
+		return keySLimit
+	}
+	if !q.IsCall() && q.Limit == 0 && q.RowOffset > 0 && ev.KnownOpen("C22", keyOffset) && offsetAtRisk(q, res) {
+		return keyOffset
+	}
+	if len(q.Calls()) > 1 && (q.Limit > 0 || q.RowOffset > 0) && res.Misaligned > 0 && ev.KnownOpen("C22", keyLimitPerCall) {
+		// signature: LIMIT/OFFSET in a statement whose calls report different intervals (fill(none)):
+		// the engine cuts every call's rows on its own before joining them
+		q2 := *q
+		q2.Limit, q2.RowOffset = 0, 0
+		verify(t, s, ds, d, &q2)
+		return keyLimitPerCall
+	}
+	if q.Desc && q.Fill == refql.FillPrevious && ev.KnownOpen("C22", keyPrevDesc) {
+		// signature: the result equals the one obtained when "previous" follows the output order
+		q2 := *q
+		q2.PreviousFollowsOutputOrder = true
+		res2, _ := refql.Eval(d, &q2)
+		if res2 != nil && res2.Check(got) == nil {
+			return keyPrevDesc
+		}
+	}
+	failCase(t, mismatchKey(q), fmt.Sprintf("%s: %v", q.String(), cerr), report(ds, q, fmtExpected(res), fmtRows(rows)))
+	return ""
 }
 
 // failCase logs the full case (so that a replay shows it) and records the violation.
@@ -431,6 +472,11 @@ func mismatchKey(q *refql.Query) string {
 	switch {
 	case q.SLimit > 0 || q.SOffset > 0:
 		return "mismatch-slimit"
+	case len(q.Calls()) > 1:
+		if q.Interval > 0 {
+			return "mismatch-multi-call-fill-" + q.Fill.String()
+		}
+		return "mismatch-multi-call"
 	case q.Interval > 0 && q.Fill != refql.FillDefault:
 		return "mismatch-fill-" + q.Fill.String()
 	case q.Interval > 0:
